@@ -174,7 +174,14 @@ func c18OctalExpected(s string) string {
 	return sb.String()
 }
 
+var c18Extra []func(c *Ctx)
+
 func runC18(c *Ctx) {
+	defer func() {
+		for _, f := range c18Extra {
+			f(c)
+		}
+	}()
 	r := c.Res
 	r.Rule = "strings: corpus + all single bytes 1..255 in 3 contexts + all (backslash,byte) pairs + PRNG mix of shell metacharacters, expansions, escapes, ASCII and non-ASCII runes (valid stream) and the same with invalid bytes inserted (extension stream); non-trivial = contains \\ \" $ ` newline or a byte >= 0x80; distinct = distinct input string. Each case: Go quoter vs Lean quote (byte equality), utf8.ValidString vs Lean validUtf8, /bin/sh and bash --posix on the Go-quoted word vs the original (property oracle) and vs Lean dqEval (shell-model validation); formatArgs cases: Go vs Lean formatArgs and real shells' word lists vs Lean shWords vs expected"
 	shells := c18Shells()
@@ -428,6 +435,8 @@ func runC18(c *Ctx) {
 		}
 	}
 }
+
+func init() { c18Extra = append(c18Extra, runC18Scripts) }
 
 func equalStrs(a, b []string) bool {
 	if len(a) != len(b) {
